@@ -145,6 +145,9 @@ func (b *FakeBackend) Reload(path string) (db.DBI, error) {
 	if strings.HasPrefix(kind, "block-") {
 		<-b.w.Gate(path)
 		kind = kind[len("block-"):]
+		// a slow reload (e.g. a long catch-up) keeps working on the backend it
+		// was called on until it returns
+		b.event("reload-continues(" + path + ")")
 	}
 	defer func() {
 		b.w.mu.Lock()
